@@ -49,6 +49,9 @@ def gen_params(rng, idx, tier="quick", force=None):
         # group-less consumer: static assign() | assign() replaced while running | subscribe(topic) with partitions
         # added while running | subscribe(pattern) with a matching topic created while running
         "simple_mode": rng.choice(["assign", "assign_twice", "subscribe_growth", "pattern"]),
+        # group consumer: subscribe() only after start() returned, so that the member's FIRST join (member id not yet
+        # known) is in flight while stop points are taken
+        "late_subscribe": rng.random() < 0.35,
         "stop_at_event": None,
         "unreachable_from_event": None,             # when the cluster state change happens (event index); None = with stop
     }
@@ -111,7 +114,8 @@ def run_history(P):
                     retry_backoff_ms=P["retry_backoff_ms"], metadata_max_age_ms=P["metadata_max_age_ms"],
                     fetch_max_wait_ms=200)
                 if wl == "group_consumer":
-                    client.subscribe([TOPIC])
+                    if not P.get("late_subscribe"):
+                        client.subscribe([TOPIC])
                 elif P.get("simple_mode") == "subscribe_growth":
                     client.subscribe([TOPIC])
                 elif P.get("simple_mode") == "pattern":
@@ -125,6 +129,9 @@ def run_history(P):
                 return
         log("started", events=loop.events)
         H["events_at_start"] = loop.events
+        if wl == "group_consumer" and P.get("late_subscribe"):
+            with owned("client"):
+                client.subscribe([TOPIC])
         plan.enabled = True
         stopping = {"flag": False}
         bg = []
